@@ -12,6 +12,7 @@ import (
 	"math/rand"
 	"os"
 	"path/filepath"
+	"runtime"
 	"runtime/debug"
 	"sort"
 	"strings"
@@ -353,7 +354,8 @@ func Main(props ...*Prop) {
 			if *out != "" {
 				// descriptor on disk before the case starts: a dying process leaves a witness
 				cur, _ := json.Marshal(map[string]any{"prop": p.ID, "part": p.Part, "seed": *seed, "tier": *tier, "index": i})
-				os.WriteFile(*out+".cur", cur, 0o644)
+				os.WriteFile(*out+".cur.tmp", cur, 0o644)
+				os.Rename(*out+".cur.tmp", *out+".cur")
 			}
 			res := runCase(p, *seed, *tier, i, *scratch, *one >= 0)
 			enc.Encode(res)
@@ -366,5 +368,22 @@ func Main(props ...*Prop) {
 	}
 	if ran == 0 && *one >= 0 {
 		HarnessBug("no such case")
+	}
+}
+
+// GCSettle forces collection rounds and waits for the cleanup queue to drain (sentinel cleanups):
+// models "the previous process is gone, none of its table cleanups is still pending".
+func GCSettle() {
+	for round := 0; round < 3; round++ {
+		done := make(chan struct{})
+		obj := new([16]byte)
+		runtime.AddCleanup(obj, func(ch chan struct{}) { close(ch) }, done)
+		obj = nil
+		runtime.GC()
+		select {
+		case <-done:
+		case <-time.After(2 * time.Second):
+		}
+		time.Sleep(200 * time.Microsecond)
 	}
 }
